@@ -70,6 +70,22 @@ theorem C20_pool_get_set_other (p : FlatPool) (i j : Nat) (k : Key) (hne : j ≠
     (hfit : i * p.size + k.length ≤ p.buf.length) : (p.set i k).get j = p.get j :=
   pool_get_set_other p i j k hne hk hj hfit
 
+/-- The pools as the code uses them (`New…Pool`, then any sequence of `Set` calls, failed ones included): a successful
+    `Set(i, k)` makes `Get(i) = k` and leaves every other slot's `Get` unchanged; a failed `Set` changes nothing. -/
+theorem C20_pool_set_contract (p : FlatPool) (n : Nat) (hI : PoolInv p n) (fixed : Bool) (i : Nat) (k : Key) :
+    PoolInv (p.trySet fixed i k).1 n ∧
+    ((p.trySet fixed i k).2 = .ok →
+      (p.trySet fixed i k).1.get i = k ∧ ∀ j, j ≠ i → (p.trySet fixed i k).1.get j = p.get j) ∧
+    ((p.trySet fixed i k).2 ≠ .ok → (p.trySet fixed i k).1 = p) := by
+  refine ⟨poolInv_trySet hI fixed i k, fun h => ?_, fun h => ?_⟩
+  · obtain ⟨hi, hk, e⟩ := trySet_ok_cond h
+    have hfit := fit_of_inv hI (by rw [← hI.2.1]; exact hi) hk
+    rw [e]
+    exact ⟨pool_get_set_same p i k hi hfit, fun j hj => pool_get_set_other p i j k hj hk (hI.2.2 j) hfit⟩
+  · exact trySet_err h
+
+theorem C20_pool_new_inv (n size : Nat) (fixed : Bool) : PoolInv (FlatPool.new n size fixed) n := poolInv_new n size fixed
+
 /-- The former witness: a short key on a fixed-length set is rejected and changes nothing
     (before the fix: `Add` returned nil, `Len()` became 1, `Exist` stayed false). -/
 theorem C20_short_key_rejected_example :
